@@ -13,6 +13,7 @@ import (
 	"go/ast"
 	"go/token"
 	"regexp"
+	"sort"
 	"strconv"
 	"strings"
 	"unicode/utf8"
@@ -908,6 +909,43 @@ func gen(c *ex.Ctx) {
 		}
 	}
 	fmt.Fprintf(&sb, "\n/-- KittyImage.Draw: the placement id is `uint(col)<<N | uint(row)` of the window's origin (none: not of that form). -/\ndef kittyPidShift : Option Nat := %s\n", pidShift)
+
+	// ---- the placement literals of KittyImage.Draw / Sixel.Draw: which expression each compared field gets
+	// (`col, row := win.Origin()` must precede; anything else ⇒ the text as it is, and draw_placement_fields fails)
+	for _, d := range [][3]string{{"KittyImage", "k", "kittyPlacement"}, {"Sixel", "s", "sixelPlacement"}} {
+		var fields []string
+		originOK := false
+		for _, st := range funcBody(f, d[0], "Draw") {
+			if strings.ReplaceAll(src(c, st), " ", "") == "col,row:=win.Origin()" {
+				originOK = true
+			}
+			ast.Inspect(st, func(n ast.Node) bool {
+				cl, ok := n.(*ast.CompositeLit)
+				if !ok || src(c, cl.Type) != "placement" {
+					return true
+				}
+				for _, e := range cl.Elts {
+					kv, ok := e.(*ast.KeyValueExpr)
+					if !ok {
+						fields = append(fields, "(.id, "+ex.LeanStr("positional: "+src(c, e))+")")
+						continue
+					}
+					key := src(c, kv.Key)
+					switch key {
+					case "id", "col", "row", "w", "h":
+						fields = append(fields, fmt.Sprintf("(.%s, %s)", key, ex.LeanStr(strings.Replace(src(c, kv.Value), d[1]+".", "X.", 1))))
+					}
+				}
+				return true
+			})
+		}
+		sort.Strings(fields)
+		if !originOK {
+			fields = append(fields, "(.col, \"win.Origin() not read into col, row\")")
+		}
+		fmt.Fprintf(&sb, "\n/-- %s.Draw: the expression each compared field of the placement gets (receiver written X; col, row := win.Origin()), sorted. -/\ndef %s : List (PField × String) := [%s]\n",
+			d[0], d[2], strings.Join(fields, ", "))
+	}
 
 	// ---- the Draw loops of the block images, structured (interpreted by Model/KittyTerm.lean: drawLoopOps)
 	fmt.Fprintf(&sb, "\n/-- the loop of HalfBlockImage.Draw. -/\ndef halfDrawLoop : DrawLoop := %s\n", drawLoop(c, ex.FindFunc(f, "HalfBlockImage", "Draw"), "hb"))
